@@ -7,7 +7,8 @@ Type AST (JSON lists):
   ["ptr", T]
   ["arr", T, dimtext, n]                          dimtext: C constant expression whose value is n
   ["agg", "struct"|"union", tag|None, [[fname|None, T], ...]]    inline definition
-  ["ref", "struct"|"union", tag]                  use of an already defined tag
+  ["ref", "struct"|"union", tag]                  use of a tag defined elsewhere in the unit (below a pointer: possibly
+                                                  by a later declaration)
   ["td", name]                                    use of a typedef name
   ["enum", tag, [enumerators]]                    inline definition; ["eref", tag] later use
   ["func", Tret, [Targs]]                         function type (only below a pointer)
@@ -237,7 +238,36 @@ class Gen(object):
                 tag = self.new_tag("E")
                 self.enums.append(tag)
                 items.append(["enumdef", ["enum", tag, ["%s_A" % tag, "%s_B" % tag]]])
+        if "forward-ref" in self.features and n > 1:
+            self.forward_refs(items)
         return {"items": items}
+
+    def forward_refs(self, items):
+        """post-pass: some pointers of a declaration now point to a struct/union tag that is only defined by a
+        later declaration of the unit (incomplete at that point: valid C as long as it is only pointed to), and some
+        aggregates get one more member that is such a pointer."""
+        r = self.r
+        nested_ok = "nested-tag-ref" in self.features
+        per_item = []
+        for it in items:
+            roots, tags = item_defs(it)
+            top = [k for k in roots if k[0] != "td"]
+            per_item.append([t for t in tags if nested_ok or t in top])
+        for i in range(len(items) - 1):
+            cands = [t for j in range(i + 1, len(items)) for t in per_item[j]]
+            T = item_type(items[i])
+            if not cands or T is None:
+                continue
+            ptrs = []
+            walk_type(T, lambda X: ptrs.append(X) if X[0] == "ptr" else None)
+            for p in ptrs:
+                if r.random() < 0.35:
+                    p[1] = ["ref"] + list(r.choice(cands))
+            if T[0] == "agg" and r.random() < 0.3:
+                tgt = ["ref"] + list(r.choice(cands))
+                if r.random() < 0.2:
+                    tgt = ["ptr", tgt]
+                T[3].insert(r.randint(0, len(T[3])), ["fw", ["ptr", tgt]])
 
 
 # ----------------------------------------------------------------------------------------------
@@ -292,6 +322,95 @@ def render_unit(unit, packed=False, pfx=""):
 # environment / resolution
 
 
+def item_type(it):
+    """the type a top-level item declares (None: enum definition)"""
+    return it[1] if it[0] == "def" else it[2] if it[0] == "typedef" else None
+
+
+def walk_type(T, fn):
+    """pre-order visit of the type nodes below T (function types are not entered)"""
+    fn(T)
+    if T[0] == "agg":
+        for _, ft in T[3]:
+            walk_type(ft, fn)
+    elif T[0] in ("ptr", "arr"):
+        walk_type(T[1], fn)
+
+
+def item_defs(it):
+    """-> (roots the item completes, in Env.roots order; every (kind, tag) it defines, nested ones included)"""
+    roots, tags = [], []
+    T = item_type(it)
+    if T is None:
+        return roots, tags
+    walk_type(T, lambda X: tags.append((X[1], X[2])) if X[0] == "agg" and X[2] is not None else None)
+    if it[0] == "def":
+        roots.append((T[1], T[2]))
+    else:
+        if T[0] == "agg" and T[2] is not None:
+            roots.append((T[1], T[2]))
+        roots.append(("td", it[1]))
+    return roots, tags
+
+
+def item_uses(it):
+    """-> (typedef names used, (kind, tag) referred to by name) in the item"""
+    tds, refs = set(), set()
+    T = item_type(it)
+    if T is not None:
+        def see(X):
+            if X[0] == "td":
+                tds.add(X[1])
+            elif X[0] == "ref":
+                refs.add((X[1], X[2]))
+        walk_type(T, see)
+    return tds, refs
+
+
+def history_plan(unit, rnd=None):
+    """A history over one declaration table: the unit is added in consecutive chunks of declarations and layouts are
+    asked for in between.  -> list of ops  ["add", lo, hi] (items lo..hi-1 as one text), ["query", kind, name] (a root
+    complete at that point), ["queryptr", kind, tag] (pointer to a tag that is used but not yet defined at that point).
+    A chunk never ends between a typedef and a later use of its name (a typedef name is only a type name for the
+    parser inside the text that declares it).  rnd None: the canonical history (every allowed cut, every query in
+    declaration order); otherwise cuts, the queries asked and their order are drawn.  The queries after the last
+    chunk (every root) are not part of the plan."""
+    items = unit["items"]
+    n = len(items)
+    defs = [item_defs(it) for it in items]
+    uses = [item_uses(it) for it in items]
+    td_at = {it[1]: i for i, it in enumerate(items) if it[0] == "typedef"}
+    all_tags = set(t for _, tags in defs for t in tags)
+    cuts = []
+    for b in range(1, n):
+        if any(td_at.get(name, n) < b for j in range(b, n) for name in uses[j][0]):
+            continue
+        if rnd is None or rnd.random() < 0.85:
+            cuts.append(b)
+    ops = []
+    lo = 0
+    for hi in cuts + [n]:
+        ops.append(["add", lo, hi])
+        lo = hi
+        if hi == n:
+            break
+        done = set(t for i in range(hi) for t in defs[i][1])
+        qs = [["query", k, nm] for i in range(hi) for k, nm in defs[i][0]]
+        pend = sorted(set(t for i in range(hi) for t in uses[i][1] if t not in done and t in all_tags))
+        ps = [["queryptr", k, t] for k, t in pend]
+        if rnd is not None:
+            qs = [q for q in qs if rnd.random() < 0.7] + [q for q in ps if rnd.random() < 0.5]
+            rnd.shuffle(qs)
+        else:
+            qs = qs + ps
+        ops.extend(qs)
+    return ops
+
+
+def render_items(unit, lo, hi):
+    return render_unit({"items": unit["items"][lo:hi]})
+
+
 class Env(object):
     def __init__(self, unit):
         self.tags = {}
@@ -300,14 +419,11 @@ class Env(object):
         self.aux_roots = []  # tags defined inside another declaration: layout wanted by the access evaluator only
         for it in unit["items"]:
             if it[0] == "def":
-                self.roots.append((it[1][1], it[1][2]))
                 self.collect(it[1])
             elif it[0] == "typedef":
                 self.typedefs[it[1]] = it[2]
                 self.collect(it[2])
-                if it[2][0] == "agg" and it[2][2] is not None:
-                    self.roots.append((it[2][1], it[2][2]))
-                self.roots.append(("td", it[1]))
+            self.roots.extend(item_defs(it)[0])
         self.finish()
 
     def collect(self, T):
@@ -666,6 +782,8 @@ def eval_ast(lay, ast, rootnode, varname="ptr", trace=None):
         k = int(ast.subscript.value, 0)
         if v.node["size"] is None:
             raise EvalError("index of void/function pointer")
+        if v.node["T"][0] == "void":
+            raise SkipAccess("index of void pointer")      # as `*`: no object type to denote
         return Val("lv", add(v.loc, k * v.node["size"]), v.node, v.rel + k * v.node["size"], v.arr).carry(v, True)
     if isinstance(ast, c_ast.StructRef):
         v0 = eval_ast(lay, ast.name, rootnode, varname, trace)
